@@ -8,10 +8,11 @@ environment events) and hold for EVERY initial buffer state, traffic still to co
 thread steps and interleaved environment events (peer closes, stops/resumes reading, keep-alive
 expiry, the connection a delivery is addressed to blocks/unblocks, `Server.Close`).
 `WF c` fixes the code as it is: repaired ring (the contract of C15), `stop()` in the order of
-service.go and a receiver that closes the socket when its read has failed (repair b77088f, finding
-F7; both regenerated, `C16_source_shape`), a ring that holds a read block plus a packet header.
+service.go, a receiver that closes the socket when its read has failed (repair b77088f, finding F7)
+and a `ReadFrom` that waits only while the incoming ring is completely full and reads into the free
+space (repair 8f682d1, finding F3) — regenerated: `C16_source_shape` —, a ring that holds a packet header.
 
-* `C16_invariant`            the three invariants and "no writer panicked" hold in every reachable state
+* `C16_invariant`            the invariants and "no writer panicked" hold in every reachable state
 * `C16_stop_once`            (a) at most one `stop()` call is past the CAS; its effects are
                              unsubscribe, will-if-flag, delete-if-clean — each at most once, in that
                              order, only after all three goroutines have exited, complete at the end
@@ -19,35 +20,44 @@ F7; both regenerated, `C16_source_shape`), a ring that holds a read block plus a
                              of every thread (and no environment event raises it): no schedule takes
                              more than `rank` thread steps; fair round-robin reaches, within `rank`
                              rounds, a state in which nothing can run
-* `C16_no_deadlock_partial`  (c) in a reachable state where the connection has ended, the teardown is
-                             not complete, the processor is not inside a delivery into ANOTHER
-                             connection that is still open, has stopped reading and is full
-                             (`HeldUp` = `HeldByThird`: all that is left of the exemption), and the
-                             state is not the F3 wedge (`ChunkWedge`), some thread can step
+* `C16_no_deadlock`          (c) the full statement: in a reachable state where the connection has
+                             ended, the teardown is not complete, and the processor is not inside a
+                             delivery into ANOTHER connection that is still open, has stopped reading
+                             and is full (`HeldUp` = `HeldByThird`: the property's exemption), some
+                             thread can step
+* `C16_receiver_reads_while_room`
+                             a receiver inside its loop that cannot step is inside a socket read on an
+                             open socket with nothing on the wire (waiting for the peer: keep-alive
+                             deadline armed, the peer's close noticed) — or the incoming ring is
+                             completely full and open; it is never parked while the ring has room
+* `C16_chunked_packet_completes`, `C16_chunked_packet_arrives`
+                             the F3 repair at model level: when nothing can run and the processor waits
+                             for the rest of a packet that fits the ring, every byte the peer has sent is
+                             in the ring and a socket read is pending; and a packet whose bytes are
+                             under way (wire + ring) does arrive: round-robin does not end with the
+                             processor still waiting for it
 * `C16_self_held_not_ended`  a connection whose processor is parked behind its OWN non-reading client
                              (`HeldBySelf`, an exemption before b77088f) is, when nothing can run, a
                              connection that has not ended: every end the receiver sees closes the socket
-* `C16_read_failure_completes` hence: once the receiver's read has failed (keep-alive deadline fired,
-                             peer closed or reset, protocol garbage ending the processor — anything
-                             that puts the receiver past its loop) fair round-robin ends in the
-                             complete teardown or `HeldByThird`; neither the self-held state nor the F3
-                             wedge can come in between
-* `C16_old_receiver_wedges`  closed counterexample: with the receiver before b77088f (returns without
+* `C16_teardown_completes`   from any reachable state in which the connection has ended, fair
+                             round-robin ends in the complete teardown — or in the state the property
+                             exempts (`HeldByThird`); nothing else
+* `C16_read_failure_completes` in particular once the receiver's read has failed (keep-alive deadline
+                             fired, peer closed or reset, protocol garbage ending the processor —
+                             anything that puts the receiver past its loop)
+* `C16_old_readfrom_wedges`  closed counterexample (F3): with the `ReadFrom` before 8f682d1 (waits for a
+                             whole read block of free space) a packet longer than `cap - rblock` that
+                             arrives in pieces parks receiver and processor, the peer's close is never
+                             noticed; the repaired `ReadFrom` tears the same state down, will included
+* `C16_old_receiver_wedges`  closed counterexample (F7): with the receiver before b77088f (returns without
                              closing the socket) a keep-alive expiry on a self-held connection ends in
                              a state where nothing can run and nothing is torn down; the repaired
                              receiver tears the same state down, will included
-* `C16_no_deadlock_counterexample`, `C16_chunk_wedge_char`
-                             the full statement is FALSE of the code: a packet longer than
-                             `cap - rblock` arriving in pieces parks receiver and processor (open
-                             finding F3); `ChunkWedge` holds only for such packets
-* `C16_teardown_completes`   hence: from any reachable state in which the connection has ended, fair
-                             round-robin ends in the complete teardown — or in the state the property
-                             exempts (`HeldByThird`), or in the F3 wedge
 * `C16_exemption_needed`     while the connection a delivery is addressed to stays open, not reading,
                              full, no schedule of the connection's own threads completes the teardown
 * `C16_stop_completes`       (e) once `stop()` has passed its CAS and no delivery to another connection
                              is blocked, fair round-robin ALWAYS ends in the complete teardown
-                             (no `ChunkWedge`, no self-held exception: stop closes socket and rings)
+                             (stop closes socket and rings)
 * `C16_server_close`         `Server.Close` on a connection — first loop (all outgoing rings closed),
                              then `stop()` — returns with the teardown complete, within `rank` steps
 * `C16_no_foreign_panic`, `C16_late_delivery_fails_fast`
@@ -60,10 +70,14 @@ F7; both regenerated, `C16_source_shape`), a ring that holds a read block plus a
                              `Server.Close` before 08d14fb hangs behind a later connection
                              (`C16_sequential_close_hangs`)
 
+What stays open is not a deadlock of an ENDED connection but an end that is not noticed: a receiver
+parked because the incoming ring is completely full (behind a processor parked in the connection's
+own outgoing ring) has no read pending and no deadline armed — finding F8, `C19_silence_counterexample`.
+
 "Bounded time" is "bounded number of own steps"; that an enabled goroutine is eventually run
 (weak fairness of the Go scheduler) is the hypothesis that turns these into "the teardown finishes".
 -/
-import Mqtt.Proofs.LifecycleEnd
+import Mqtt.Proofs.LifecycleChunk
 import Mqtt.Proofs.LifecycleFacts
 import Mqtt.Proofs.RingFacts
 
@@ -182,17 +196,17 @@ theorem C16_teardown_bounded (c : Cfg) (hw : WF c) (s0 : St) (h0 : Init c s0) (s
   · exact drain_quiescent c hw _ s hi (Nat.le_refl _)
   · exact drain_is_run c _ s
 
-/-- **(c) no deadlock among the connection's threads** (partial: the F3 wedge excluded).  In a
-reachable state in which the connection has ended and the teardown is not complete, some thread can
-step — unless the processor is inside a delivery into ANOTHER connection that is still open, has
-stopped reading and is full (`HeldByThird`: what is left of the property's exemption — the
-connection's own non-reading client is no excuse any more, `C16_self_held_not_ended`), or the state
-is the F3 wedge. -/
-theorem C16_no_deadlock_partial (c : Cfg) (hw : WF c) (s0 : St) (h0 : Init c s0) (sched : List Label) :
+/-- **(c) no deadlock among the connection's threads** (the full statement, with the property's
+exemption).  In a reachable state in which the connection has ended and the teardown is not
+complete, some thread can step — unless the processor is inside a delivery into ANOTHER connection
+that is still open, has stopped reading and is full (`HeldByThird`: the property's exemption — the
+connection's own non-reading client is no excuse, `C16_self_held_not_ended`).  (Before 8f682d1 a
+second exception was needed: receiver and processor waiting for each other, `C16_old_readfrom_wedges`.) -/
+theorem C16_no_deadlock (c : Cfg) (hw : WF c) (s0 : St) (h0 : Init c s0) (sched : List Label) :
     let s := reach c s0 sched
-    Ended s = true → Final s = false → HeldByThird s = false → ChunkWedge c s = false →
+    Ended s = true → Final s = false → HeldByThird s = false →
     ∃ t, en c s t = true := by
-  intro s he hf hh hcw
+  intro s he hf hh
   have hi : Inv c s := (C16_invariant c hw s0 h0 sched).1
   apply Classical.byContradiction
   intro hne
@@ -201,10 +215,9 @@ theorem C16_no_deadlock_partial (c : Cfg) (hw : WF c) (s0 : St) (h0 : Init c s0)
     cases h : en c s t with
     | false => rfl
     | true => exact absurd ⟨t, h⟩ hne
-  rcases quiescent_cases_fixed c hw s hi hq with h | h | h | h
+  rcases quiescent_cases_fixed c hw s hi hq with h | h | h
   · rw [hf] at h; cases h
   · rw [hh] at h; cases h
-  · rw [hcw] at h; cases h
   · rw [he] at h; cases h
 
 /-- the exemption is exactly `HeldByThird` -/
@@ -234,64 +247,150 @@ theorem C16_self_held_not_ended (c : Cfg) (hw : WF c) (s0 : St) (h0 : Init c s0)
     | false => rfl
     | true => simp [Ended, h] at he
 
-/-- a 14-byte packet of which the peer sends 9 bytes in pieces of at most 3, then closes -/
-def chunkInit : St := { sh := { stream := [⟨2, 14, .normal []⟩], wire := 9 } }
+/-- **the receiver is never parked while the incoming ring has room** (repair 8f682d1).  In every
+reachable state: a receiver that is inside its loop and cannot step is
+
+* inside a socket read on an open socket, no deadline fired, nothing on the wire — it waits for the
+  peer, legitimately: the read deadline is armed (`kaExpire` is enabled) and the peer's close is
+  noticed (`peerClose` is enabled, and makes the read fail) —, or
+* waiting for space while the incoming ring is open and completely full (`cap ≤ inR.buf`; `= cap` when
+  the initial contents fitted the ring — `Init` does not say so).
+
+Before the repair the second case was "less than a read block free". -/
+theorem C16_receiver_reads_while_room (c : Cfg) (hw : WF c) (s0 : St) (h0 : Init c s0) (sched : List Label) :
+    let s := reach c s0 sched
+    en c s .recv = false → RPc.pastLoop s.recv = false →
+    (s.recv = .read ∧ s.sh.sock = .open ∧ s.sh.timeout = false ∧ s.sh.wire = 0 ∧
+      (estep c s .kaExpire).isSome = true ∧ (estep c s .peerClose).isSome = true) ∨
+    (s.recv = .space ∧ s.sh.inR.done = false ∧ c.cap ≤ s.sh.inR.buf ∧
+      (s0.sh.inR.buf ≤ c.cap → s.sh.inR.buf = c.cap)) := by
+  intro s hen hpl
+  have hi0 : Inv c s0 := inv_init c s0 h0
+  have hi : Inv c s := (C16_invariant c hw s0 h0 sched).1
+  rcases recv_blocked c hw s hi.a hen with ⟨hr, hd, hb⟩ | ⟨hr, hso, hto, hwi⟩ | hr
+  · right
+    refine ⟨hr, hd, hb, ?_⟩
+    intro hfit
+    have := inFit_run c hw s0 sched hi0 hfit
+    exact Nat.le_antisymm this hb
+  · left
+    refine ⟨hr, hso, hto, hwi, ?_, ?_⟩ <;> simp [estep, hr, hso]
+  · rw [hr] at hpl; cases hpl
+
+/-- **a packet in pieces does not wedge the connection** (the F3 repair at model level, part 1).  In a
+reachable state in which nothing can run and the processor waits for the rest of a packet that fits
+the ring (`p.total ≤ cap`, fewer bytes buffered, ring open): the receiver is inside a socket read on
+an open socket with nothing left on the wire — every byte the peer has sent so far is in the ring —
+so the keep-alive deadline is armed and the peer's close is noticed (both environment events are
+enabled), and either makes the read fail; `C16_read_failure_completes` does the rest. -/
+theorem C16_chunked_packet_completes (c : Cfg) (hw : WF c) (s0 : St) (h0 : Init c s0) (sched : List Label) :
+    let s := reach c s0 sched
+    quiescent c s = true → s.proc = .msg →
+    ∀ p tl, s.sh.stream = p :: tl → p.total ≤ c.cap → s.sh.inR.buf < p.total → s.sh.inR.done = false →
+    s.recv = .read ∧ s.sh.sock = .open ∧ s.sh.timeout = false ∧ s.sh.wire = 0 ∧
+    (estep c s .kaExpire).isSome = true ∧ (estep c s .peerClose).isSome = true := by
+  intro s hq hpc p tl hst hcap hbuf hnd
+  have hi : Inv c s := (C16_invariant c hw s0 h0 sched).1
+  rcases recv_blocked c hw s hi.a ((quiescent_iff c s).mp hq .recv) with ⟨_, _, hb⟩ | ⟨hr, hso, hto, hwi⟩ | hr
+  · exfalso; omega
+  · refine ⟨hr, hso, hto, hwi, ?_, ?_⟩ <;> simp [estep, hr, hso]
+  · exfalso
+    have := hi.a.rdone (by simp [hr, RPc.closedRing])
+    rw [this] at hnd; cases hnd
+
+/-- **a packet in pieces arrives** (part 2, liveness).  From a reachable state in which the processor
+waits for the rest of the head packet `p`, `p` fits the ring, and the bytes still on the wire, those in
+the ring and those the receiver has just read add up to `p` at least: fair round-robin ends — within
+`rank` rounds — in a state in which the processor is NOT still waiting for that packet: it has got it
+(it is past `peekMessage`, or has consumed the packet: the stream is shorter) or has left its loop
+because the connection ended on the way (ring closed).  However small the pieces, whatever the ring
+holds.  Before 8f682d1 this failed for `cap - rblock < p.total` (`C16_old_readfrom_wedges`). -/
+theorem C16_chunked_packet_arrives (c : Cfg) (hw : WF c) (s0 : St) (h0 : Init c s0) (sched : List Label) :
+    let s := reach c s0 sched
+    s.proc = .msg → ∀ p tl, s.sh.stream = p :: tl → p.total ≤ c.cap →
+    p.total ≤ s.sh.wire + s.sh.inR.buf + RPc.pend s.recv →
+    let q := drain c (rank c s) s
+    quiescent c q = true ∧ (q.sh.stream = s.sh.stream → q.proc ≠ .msg ∧ PPc.passed q.proc = true) := by
+  intro s hpc p tl hst hcap hsum q
+  have hi : Inv c s := (C16_invariant c hw s0 h0 sched).1
+  have hq := drain_quiescent c hw _ s hi (Nat.le_refl _)
+  have hiq : Inv c q := inv_drain c hw _ s hi
+  obtain ⟨sched', hrun, hth⟩ := drain_is_run c (rank c s) s
+  have ha0 : Arr (p :: tl) p.total s := ⟨by rw [hst]; exact Nat.le_refl _, fun _ => Or.inl ⟨hpc, Or.inr hsum⟩⟩
+  have ha : Arr (p :: tl) p.total q := by
+    show Arr (p :: tl) p.total (drain c (rank c s) s)
+    rw [hrun]; exact arr_run c hw (p :: tl) (by simp) p.total s sched' hth hi ha0
+  refine ⟨hq, ?_⟩
+  intro hsame
+  have hqs : q.sh.stream = p :: tl := by rw [hsame, hst]
+  rcases ha.2 hqs with ⟨hm, hb⟩ | hp
+  · -- still waiting: impossible in a state in which nothing can run
+    exfalso
+    have hqq := (quiescent_iff c q).mp hq
+    rcases proc_blocked c hw q (hqq .proc) with ⟨h, _⟩ | ⟨_, p', tl', hst', hbuf, _, hnd⟩ | ⟨_, h, _⟩ | ⟨_, _, h, _⟩ |
+        ⟨_, _, h | h, _⟩ | ⟨h, _⟩ | h | h
+    all_goals first | (rw [hm] at h; cases h) | skip
+    rw [hqs] at hst'; cases hst'
+    rcases hb with hb | hb
+    · rw [hb] at hnd; cases hnd
+    · rcases recv_blocked c hw q hiq.a (hqq .recv) with ⟨_, _, hf⟩ | ⟨hr, _, _, hwi⟩ | hr
+      · omega
+      · rw [hr, hwi] at hb; simp [RPc.pend] at hb; omega
+      · have := hiq.a.rdone (by simp [hr, RPc.closedRing])
+        rw [this] at hnd; cases hnd
+  · refine ⟨?_, hp⟩
+    intro hm; rw [hm] at hp; cases hp
+
+/-- a 14-byte packet of which the peer sends 9 bytes in pieces of at most 3, then closes; will flag set -/
+def chunkInit : St := { sh := { stream := [⟨2, 14, .normal []⟩], wire := 9, willFlag := true } }
 
 def chunkSched : List Label :=
   [.th .recv 0, .th .recv 3, .th .recv 0, .th .recv 0, .th .recv 3, .th .recv 0, .th .recv 0, .th .recv 3,
    .th .recv 0, .th .proc 0, .env .peerClose]
 
-/-- **the full statement of (c) is false of the code** (defect F3): a reachable state — three
-socket reads of 3 bytes each, the processor has seen the header, the peer closes — in which the
-connection has ended, nothing is held up, the teardown has not even begun, and no thread can step:
-the receiver waits for 8 free bytes beside the 9 buffered ones, the processor for the other 5
-bytes of the packet, nobody reads the socket. -/
-theorem C16_no_deadlock_counterexample :
+/-- **with the `ReadFrom` before 8f682d1 the model wedges** (F3: the full statement of (c) was false
+of that code).  Old `ReadFrom` (`blockWait := true`: a whole read block of free space before every
+socket read): a reachable state — three socket reads of 3 bytes each, the processor has seen the
+header, the peer closes; every step of the schedule is taken — in which the connection has ended,
+nothing is held up, the teardown has not even begun, and no thread can step: the receiver waits
+for 8 free bytes beside the 9 buffered ones, the processor for the other 5 bytes of the 14-byte
+packet, nobody reads the socket, the close is never noticed (`ChunkWedge`; it needs a head packet
+with `cap - rblock < total ≤ cap`, here 8 < 14 ≤ 16).  The repaired `ReadFrom` takes the same steps to
+the same state, but there the receiver can step (one byte is free): it issues the read, sees the
+close, and round-robin ends in the complete teardown with the will published. -/
+theorem C16_old_readfrom_wedges :
     WF c0 ∧ Init c0 chunkInit ∧
+    (let c : Cfg := { c0 with blockWait := true }
+     let s := reach c chunkInit chunkSched
+     taken c chunkInit chunkSched = chunkSched.length ∧
+     s.recv = .space ∧ s.proc = .msg ∧ s.sh.inR.buf = 9 ∧ s.sh.wire = 0 ∧ s.sh.sock = .peerClosed ∧
+     quiescent c s = true ∧ Ended s = true ∧ Final s = false ∧ HeldUp s = false ∧ s.sh.closed = false ∧
+     ChunkWedge c s = true ∧ s.sh.effects = [] ∧ goroutinesLeft s = 3 ∧ drain c 40 s = s) ∧
     (let s := reach c0 chunkInit chunkSched
-     Ended s = true ∧ Final s = false ∧ HeldUp s = false ∧ s.sh.closed = false ∧
-     quiescent c0 s = true ∧ ChunkWedge c0 s = true) := by
-  refine ⟨c0_wf, ?_, by decide⟩
+     let q := drain c0 40 s
+     taken c0 chunkInit chunkSched = chunkSched.length ∧
+     s.recv = .space ∧ s.proc = .msg ∧ s.sh.inR.buf = 9 ∧ s.sh.wire = 0 ∧ s.sh.sock = .peerClosed ∧
+     en c0 s .recv = true ∧
+     quiescent c0 q = true ∧ Final q = true ∧ TornDown q = true ∧ q.sh.effects = [.unsub, .will] ∧
+     goroutinesLeft q = 0) := by
+  refine ⟨c0_wf, ?_, by decide, by decide⟩
   refine ⟨rfl, rfl, rfl, rfl, rfl, rfl, rfl, rfl, rfl, ?_, ?_, rfl, rfl, rfl⟩
   · intro k hk; cases hk
   · intro w hw; cases hw
 
-/-- the wedge needs a packet that does not fit beside a read block: `cap - rblock < total ≤ cap`;
-if every packet on the connection is shorter than that (or too long for the ring at all, which
-ends the connection), the state cannot occur -/
-theorem C16_chunk_wedge_char (c : Cfg) (s : St) :
-    (ChunkWedge c s = true → ∃ p tl, s.sh.stream = p :: tl ∧ c.cap < p.total + c.rblock ∧ p.total ≤ c.cap) ∧
-    ((∀ p, p ∈ s.sh.stream → p.total + c.rblock ≤ c.cap ∨ c.cap < p.total) → ChunkWedge c s = false) := by
-  have key : ChunkWedge c s = true → ∃ p tl, s.sh.stream = p :: tl ∧ c.cap < p.total + c.rblock ∧ p.total ≤ c.cap := by
-    intro h
-    simp only [ChunkWedge, Bool.and_eq_true, decide_eq_true_eq] at h
-    obtain ⟨⟨_, h1⟩, h2⟩ := h
-    cases hst : s.sh.stream with
-    | nil => simp [hst] at h2
-    | cons p tl =>
-      simp [hst] at h2
-      exact ⟨p, tl, rfl, by omega, h2.2⟩
-  refine ⟨key, ?_⟩
-  intro hall
-  cases h : ChunkWedge c s with
-  | false => rfl
-  | true =>
-    obtain ⟨p, tl, hst, h1, h2⟩ := key h
-    rcases hall p (by rw [hst]; exact List.mem_cons_self ..) with h3 | h3 <;> omega
-
-/-- **the teardown completes** (the full property, with its exemption, minus F3).  From any
-reachable state in which the connection has ended, fair round-robin reaches within `rank` rounds a
-state in which nothing can run, and that state is the complete teardown (all goroutines exited,
-`stop()` returned, its effects complete) — or the processor is inside a delivery into ANOTHER
-connection that is still open, has stopped reading and is full, or it is the F3 wedge.  A
-connection whose own client has stopped reading is no exception any more (b77088f). -/
+/-- **the teardown completes** (the full property, with its exemption).  From any reachable state
+in which the connection has ended, fair round-robin reaches within `rank` rounds a state in which
+nothing can run, and that state is the complete teardown (all goroutines exited, `stop()` returned,
+its effects complete) — or the processor is inside a delivery into ANOTHER connection that is still
+open, has stopped reading and is full.  Nothing else: a connection whose own client has stopped
+reading is no exception (b77088f), a packet arriving in pieces is none (8f682d1). -/
 theorem C16_teardown_completes (c : Cfg) (hw : WF c) (s0 : St) (h0 : Init c s0) (sched : List Label) :
     let s := reach c s0 sched
     Ended s = true →
     let q := drain c (rank c s) s
     quiescent c q = true ∧
     ((Final q = true ∧ TornDown q = true ∧ q.sh.effects = expectedEffects q.sh ∧ goroutinesLeft q = 0) ∨
-     HeldByThird q = true ∨ ChunkWedge c q = true) := by
+     HeldByThird q = true) := by
   intro s he q
   have hi : Inv c s := (C16_invariant c hw s0 h0 sched).1
   have hq := drain_quiescent c hw _ s hi (Nat.le_refl _)
@@ -301,7 +400,7 @@ theorem C16_teardown_completes (c : Cfg) (hw : WF c) (s0 : St) (h0 : Init c s0) 
     show Ended (drain c (rank c s) s) = true
     rw [hrun]; exact (persist_run c hw s sched' hth).1 he
   refine ⟨hq, ?_⟩
-  rcases quiescent_cases_fixed c hw q hiq ((quiescent_iff c q).mp hq) with h | h | h | h
+  rcases quiescent_cases_fixed c hw q hiq ((quiescent_iff c q).mp hq) with h | h | h
   · left
     have hp : q.proc = .stop .finished := by
       simp only [Final, Bool.and_eq_true, beq_iff_eq] at h
@@ -311,8 +410,7 @@ theorem C16_teardown_completes (c : Cfg) (hw : WF c) (s0 : St) (h0 : Init c s0) 
     refine ⟨h, ht.1, ht.2, ?_⟩
     simp only [Final, Bool.and_eq_true, beq_iff_eq] at h
     simp [goroutinesLeft, h.1.1.1.1, h.1.1.1.2, hp]
-  · right; left; exact h
-  · right; right; exact h
+  · right; exact h
   · rw [heq] at h; cases h
 
 /-- **a failed read always leads to the teardown.**  From any reachable state in which the
@@ -320,9 +418,9 @@ receiver's read has failed — the keep-alive deadline has fired on it, or the r
 past its loop (peer closed or reset, ring closed under it) — fair round-robin reaches within `rank`
 rounds the complete teardown, for EVERY buffer condition: idle, own outgoing ring full with a third
 party's or with the connection's OWN processor parked in it behind a client that does not read,
-incoming ring full.  The only state left in which it can stop short is the processor inside a
-delivery into another connection that is open, not reading and full.  (The F3 wedge is a receiver
-that never gets to read; it cannot follow a failed read.) -/
+incoming ring full, a packet half arrived.  The only state in which it can stop short is the
+processor inside a delivery into another connection that is open, not reading and full.
+(`C16_teardown_completes` with one of the ways a connection ends.) -/
 theorem C16_read_failure_completes (c : Cfg) (hw : WF c) (s0 : St) (h0 : Init c s0) (sched : List Label) :
     let s := reach c s0 sched
     (s.sh.timeout = true ∨ RPc.pastLoop s.recv = true) →
@@ -330,23 +428,10 @@ theorem C16_read_failure_completes (c : Cfg) (hw : WF c) (s0 : St) (h0 : Init c 
     quiescent c q = true ∧
     ((Final q = true ∧ TornDown q = true ∧ q.sh.effects = expectedEffects q.sh ∧ goroutinesLeft q = 0) ∨
      HeldByThird q = true) := by
-  intro s hf q
+  intro s hf
   have he : Ended s = true := by
     rcases hf with h | h <;> simp [Ended, h]
-  obtain ⟨hq, hcases⟩ := C16_teardown_completes c hw s0 h0 sched he
-  refine ⟨hq, ?_⟩
-  rcases hcases with h | h | h
-  · exact Or.inl h
-  · exact Or.inr h
-  · exfalso
-    have hi : Inv c s := (C16_invariant c hw s0 h0 sched).1
-    have hiq : Inv c q := inv_drain c hw _ s hi
-    obtain ⟨sched', hrun, hth⟩ := drain_is_run c (rank c s) s
-    have hfq : RecvFailed q := by
-      show RecvFailed (drain c (rank c s) s)
-      rw [hrun]; exact recvFailed_run c hw s sched' hth hf
-    have := recvFailed_no_wedge c q hiq.r hfq
-    rw [this] at h; cases h
+  exact C16_teardown_completes c hw s0 h0 sched he
 
 /-- **the exemption is needed**: while the connection the processor delivers to stays open, not
 reading and full, no schedule of this connection's own threads gets the processor out of the
@@ -359,8 +444,8 @@ theorem C16_exemption_needed (c : Cfg) (hw : WF c) (s : St) (sched : List Label)
 /-- **(e) once `stop()` is under way it completes.**  In a reachable state in which a `stop()` call
 has passed its CAS and the connection the processor may be delivering to is not blocked, fair
 round-robin reaches within `rank` rounds the complete teardown: every goroutine exited, every
-`stop()` call returned, effects complete, exactly once.  No F3 exception and no self-held
-exception here: `stop()` closes the socket and both rings itself. -/
+`stop()` call returned, effects complete, exactly once.  No exemption but the third party's:
+`stop()` closes the socket and both rings itself. -/
 theorem C16_stop_completes (c : Cfg) (hw : WF c) (s0 : St) (h0 : Init c s0) (sched : List Label) :
     let s := reach c s0 sched
     s.sh.closed = true → s.sh.extBlocked = false →
@@ -486,11 +571,11 @@ def outFullInit : St :=
 is parked in the full outgoing ring; the producer woken by the sender's deferred `Close` returns
 end-of-stream with the producer mutex locked (and the processor, woken in `ReadWait`, with the
 consumer mutex), so the `Close` calls of `stop()` never return: nothing can run, the teardown is
-not complete, nothing is held up, and it is not the F3 wedge. -/
+not complete, nothing is held up. -/
 theorem C16_old_ring_wedges :
     let c : Cfg := { c0 with d2 := true }
     let s := drain c 40 ((estep c outFull .peerClose).getD outFull)
-    quiescent c s = true ∧ Final s = false ∧ Ended s = true ∧ HeldUp s = false ∧ ChunkWedge c s = false ∧
+    quiescent c s = true ∧ Final s = false ∧ Ended s = true ∧ HeldUp s = false ∧
     s.sh.effects = [] ∧ (s.sh.outR.pHeld = true ∨ s.sh.inR.cHeld = true) := by decide
 
 /-- **with the `stop()` before e79396e a foreign goroutine panics** (F1): `stop()` ends with
@@ -539,8 +624,8 @@ whose processor is parked in its own outgoing ring behind its own non-reading cl
 receiver sees the time-out, closes the incoming ring and returns; nobody closes the socket, so the
 sender stays in its write, the outgoing ring stays open, the processor stays parked and never
 reaches its deferred `stop()`: a reachable state in which the connection has ended, nothing can
-run, nothing is torn down (no unsubscribe, no will), and neither the exemption nor the F3 wedge
-applies.  The repaired receiver tears the same state down completely, will included. -/
+run, nothing is torn down (no unsubscribe, no will), and the exemption does not apply.  The
+repaired receiver tears the same state down completely, will included. -/
 theorem C16_old_receiver_wedges :
     Init c0 selfInit ∧
     (let c : Cfg := { c0 with recvCloses := false }
@@ -548,7 +633,7 @@ theorem C16_old_receiver_wedges :
      let q := drain c 40 s
      taken c selfInit selfSched = selfSched.length ∧
      s.proc = .ownWait 12 [] ∧ s.recv = .read ∧ s.send = .write 8 ∧ s.sh.timeout = true ∧
-     quiescent c q = true ∧ Ended q = true ∧ Final q = false ∧ HeldUp q = false ∧ ChunkWedge c q = false ∧
+     quiescent c q = true ∧ Ended q = true ∧ Final q = false ∧ HeldUp q = false ∧
      HeldBySelf q = true ∧ q.recv = .exited ∧ q.sh.sock = .open ∧ q.sh.closed = false ∧ q.sh.effects = [] ∧
      goroutinesLeft q = 2) ∧
     (let s := reach c0 selfInit selfSched
@@ -616,6 +701,19 @@ example :
     let s0 : St := { recv := .read, sh := { willFlag := true } }
     let s := drain c0 40 ((estep c0 s0 .kaExpire).getD s0)
     Final s = true ∧ s.sh.effects = [.unsub, .will] := by decide
+
+/-- a packet in pieces that does arrive (`C16_chunked_packet_arrives`, `C16_chunked_packet_completes`): the
+state of `C16_old_readfrom_wedges` with the other 5 bytes of the 14-byte packet still on the wire instead
+of the peer's close — 9 bytes in the ring, the processor waiting for the packet; round-robin completes
+the packet, the processor consumes it, and the connection is idle: nothing can run, nothing has ended,
+the receiver is inside a socket read -/
+example :
+    let s0 : St := { sh := { stream := [⟨2, 14, .normal []⟩], wire := 14 } }
+    let s := run c0 s0 chunkSched.dropLast
+    s.proc = .msg ∧ s.sh.inR.buf = 9 ∧ s.sh.wire = 5 ∧ s.recv = .space ∧
+    (let q := drain c0 (rank c0 s) s
+     quiescent c0 q = true ∧ q.sh.stream = [] ∧ q.proc = .size ∧ q.recv = .read ∧ q.sh.inR.buf = 0 ∧
+     Ended q = false) := by decide
 
 /-- self-held and ended cannot both be true when nothing can run: the self-held state of
 `C16_old_receiver_wedges` BEFORE the deadline fires is quiescent and has not ended -/
